@@ -35,7 +35,7 @@ def main():
     na = [{"property_id": p, "reason": NOT_APPLICABLE.get(p, "check not built yet in this round; see DESIGN.md section 12 for the order of implementation")} for p in props if p not in CHECKS]
     m = {
         "version": 1,
-        "setup_cmd": "/venv/bin/python -c 'import hypothesis' 2>/dev/null || /venv/bin/pip install --no-index --find-links /opt/veriftools/wheels hypothesis",
+        "setup_cmd": "(/venv/bin/python -c 'import hypothesis' 2>/dev/null || /venv/bin/pip install --no-index --find-links /opt/veriftools/wheels hypothesis) && (test -d /verif/.deps/atheris || /venv/bin/pip install -q --no-index --find-links /opt/veriftools/wheels --target /verif/.deps atheris || echo 'atheris not installed: the coverage-guided leg will be skipped and the evidence says so')",
         "hooks": {
             "guard": "NUMBA_SCFG_VERIF",
             "enable": "no source hooks are needed: the checks import /repo's working tree directly (pure Python) and install their monitors by wrapping methods at run time",
@@ -48,7 +48,7 @@ def main():
                 "name": "vpbt",
                 "path": "/verif/vpbt",
                 "serves_properties": [c["property_id"] for c in checks],
-                "kind_free_text": "property-based testing: exhaustive small-scope enumeration + Hypothesis strategies / rule-based state machines + standard-library corpus, each judged by an independent executable oracle; 16 processes",
+                "kind_free_text": "property-based testing: exhaustive small-scope enumeration + Hypothesis strategies / rule-based state machines + standard-library corpus + coverage-guided fuzzing (atheris) for the graph family, each judged by an independent executable oracle; 16 processes",
             }
         ],
         "checks": checks,
